@@ -273,6 +273,16 @@ func (fx *FuncCtx) readField(st *State, ref Term, elem, path string, ft types.Ty
 			}
 			return VStr{B: b, O: o, L: l}
 		}
+	case *types.Slice:
+		if isByteSlice(ft) {
+			b := sSel(fx.hget(st, key+"#b", arrSort(sortArr)), ref)
+			o := nm(sortInt, "rfo", sSel(fx.hget(st, key+"#o", arrSort(sortInt)), ref))
+			l := nm(sortInt, "rfl", sSel(fx.hget(st, key+"#l", arrSort(sortInt)), ref))
+			if !pure {
+				fx.assume(st.pc, sAnd(sLe("0", o), sLe("0", l), sLt(l, maxLen)))
+			}
+			return VStr{B: b, O: o, L: l}
+		}
 	case *types.Interface:
 		if isErrorLike(ft) {
 			return VErr{nm(sortInt, "rf", sSel(fx.hget(st, key, arrSort(sortInt)), ref))}
